@@ -1,10 +1,13 @@
 import Mamba.Lemmas.IsoLevels
 import Mamba.Lemmas.IsoPreds
+import Mamba.Lemmas.IsoPreds2
 import Mamba.Lemmas.SearchOut
 import Mamba.Lemmas.SearchShards
 import Mamba.Lemmas.SearchPlace
 import Mamba.Lemmas.ExactFinal
 import Mamba.Lemmas.BridgeSpec
+import Mamba.Lemmas.TestOracle
+import Mamba.Lemmas.TermExhaust
 /-!
 # Property C03 — the search yields exactly one representative of every isomorphism class
 
@@ -51,14 +54,15 @@ example : checkLevels (fun _ => true) [[ofMask 0 0], [ofMask 1 0], [ofMask 2 0, 
 /-- the graphs the driver builds from masks are well-formed, so `checkLevels_sound` applies to every request -/
 theorem ofMask_wellFormed (n mask : Nat) : (ofMask n mask).WF := ofMask_wf n mask
 
-/-- The predicates the harness uses as `preprune`/`prune` are hereditary (invariant under isomorphism and inherited
-by `g - last vertex`), so `checkLevels_sound` applies to them: no restriction, at most `k` vertices, maximum degree
-at most `d`, triangle-free, K4-free.  (`isForest` and `isBipartite` are used by the harness too; for them `Hereditary`
-is an assumption of the check — not proved here.) -/
+/-- All predicates the harness uses as `preprune`/`prune` are hereditary (invariant under isomorphism and inherited by
+`g - last vertex`), so `checkLevels_sound` and `search_exact` apply to them: no restriction, at most `k` vertices, maximum
+degree at most `d`, triangle-free, K4-free, forest (`isForest_iff`: no non-empty set of vertices each with two neighbours
+inside), bipartite (`isBipartite_iff`: a proper 2-colouring exists). -/
 theorem predicates_hereditary (k d : Nat) :
     Hereditary (fun _ => true) ∧ Hereditary (orderLE k) ∧ Hereditary (maxDegLE d) ∧ Hereditary triangleFree ∧
-      Hereditary k4Free :=
-  ⟨hereditary_true, hereditary_orderLE k, hereditary_maxDegLE d, hereditary_triangleFree, hereditary_k4Free⟩
+      Hereditary k4Free ∧ Hereditary isForest ∧ Hereditary isBipartite :=
+  ⟨hereditary_true, hereditary_orderLE k, hereditary_maxDegLE d, hereditary_triangleFree, hereditary_k4Free,
+   hereditary_isForest, hereditary_isBipartite⟩
 
 end GSearch
 
@@ -207,6 +211,14 @@ example : ∃ outs t, exhaust irOracle (pruneOf fun _ => true) noPrune 5 5 (init
     Transversal (fun _ => true) 1 (outs.map DG.toG) :=
   ⟨_, _, rfl, search_exact_with_IR_oracle 1 hereditary_true 5 5 rfl⟩
 
+-- test (kernel evaluation, bounded, NOT the property): the `Search` model run with the brute-force oracle
+-- `bfOracle` (`Lemmas/TestOracle.lean`: minimal relabelled edge code over all permutations, all automorphisms as generators)
+-- yields 1, 1, 2, 4, 11 graphs for n = 0..4, and the verified checker `checkLevels` accepts the model's own output, so by
+-- `checkLevels_sound` these lists are exact transversals.  (`IR.cert` uses `List.mergeSort`, which the kernel cannot
+-- unfold, hence `bfOracle` instead of `irOracle` here.)
+example : ((List.range 5).map fun n => (bfLevel n).length) = [1, 1, 2, 4, 11] ∧
+    checkLevels (fun _ => true) ((List.range 5).map bfLevel) = .ok := by decide +kernel
+
 -- test (compiled evaluation, not a theorem): with `irOracle` the model yields 2, 4, 11, 34 graphs for n = 2, 3, 4, 5
 -- (`#eval` of `exhaust irOracle (pruneOf fun _ => true) noPrune 100000 1000 (init n 0 1)`); the kernel cannot evaluate
 -- these closed terms (`IR.cert` uses `List.mergeSort`), so for n ≥ 2 the hypothesis `h` is not instantiated by an `example`.
@@ -265,5 +277,86 @@ theorem shards_arith (n i m : Nat) (hn : 2 ≤ n) (hm : 0 < m) :
     (1 ≤ splitLevel n ∧ splitLevel n ≤ (n : Int) - 1) ∧
       ∃ a, a < m ∧ i % m = a ∧ ∀ b, b < m → i % m = b → b = a :=
   ⟨splitLevel_range hn, shard_unique i m hm⟩
+
+/-! ### Termination: the fuel hypotheses disappear
+
+`fuelBound n = (2 ^ n + 5) ^ n + 1`.  `Lemmas/TermRun.lean`: the configurations of the step function `run` satisfy the
+invariant `TInv` (the current graph is built from the one-vertex graph by `AddVertex`, it has `len(currentPath)` or
+`len(currentPath) + 1` vertices, the stack of choices is cut into frames by the counts in `currentPath` and the choices of
+the frame at level `l` only mention vertices `< l`, a cache handed to `addAugmentations` was produced by an accepting
+`isCanonical`), on which `AddVertex`, `RemoveVertex`, `isCanonical` (`isCanonical_total`) and `addAugmentations`
+(`addAugmentations_total`: the reslice `ds[:C(nv,k)]` stays within `C(n, n/2)`) do not panic, and every step strictly
+decreases the potential `Σ_frames count · W(level) + 2·depth + (mode)`, `W(l) = (2^n + 5)^(n-l)` (`addAugmentations` pushes
+at most `2^nv` choices: `aug_size_le`, from `aug_range`/`aug_distinct`). -/
+
+/-- **The search terminates** (model level, full): for every `n`, every oracle satisfying `OracleSpec O n`, all pure
+pruning functions, every shard `a, m` with `m ≥ 1`: with at least `fuelBound n` fuel for each call of `Next` and a call
+limit of at least `fuelBound n`, the run `for it.Next() { … }` from `WithPruning(n, a, m, …)` returns normally — no panic
+(no index out of range, no reslice beyond a capacity, no `RemoveVertex` on an empty graph, no modulo by zero) and no
+exhaustion of the fuel.  (`m = 0` panics in Go as well: `i % 0`.) -/
+theorem run_terminates {O : Oracle} {n : Nat} (hO : OracleSpec O n) (pre pr : DG → Bool) (a m : Nat) (hm : 0 < m)
+    {fuel lim : Nat} (hf : fuelBound n ≤ fuel) (hl : fuelBound n ≤ lim) :
+    ∃ outs t, exhaust O pre pr fuel lim (init n a m) = .ok (outs, t) :=
+  exhaust_init_total hO pre pr a m hm hf hl
+
+example : ∃ outs t, exhaust irOracle (fun g => g.ne > 3) noPrune (fuelBound 6) (fuelBound 6) (init 6 1 3) = .ok (outs, t) :=
+  run_terminates (irOracle_spec 6) _ _ 1 3 (by decide) (Nat.le_refl _) (Nat.le_refl _)
+
+/-- `search_exact` without the hypothesis that the run returns: it does, and the yielded graphs are an exact transversal. -/
+theorem search_exact_total {O : Oracle} {n : Nat} {P : G → Bool} (hO : OracleSpec O n) (hP : Hereditary P)
+    {fuel lim : Nat} (hf : fuelBound n ≤ fuel) (hl : fuelBound n ≤ lim) :
+    ∃ outs t, exhaust O (pruneOf P) noPrune fuel lim (init n 0 1) = .ok (outs, t) ∧
+      Transversal P n (outs.map DG.toG) := by
+  obtain ⟨outs, t, h⟩ := run_terminates hO (pruneOf P) noPrune 0 1 (by decide) hf hl
+  exact ⟨outs, t, h, search_exact hO hP fuel lim h⟩
+
+/-- **Canonical augmentation is exact, end to end on the models, unconditionally**: for every `n` and every hereditary,
+isomorphism-invariant `P` (as `preprune`), the search model `WithPruning(n, 0, 1, P)` run with the canonical labelling of the
+C01/C02 model as oracle (and `fuelBound n` fuel) returns normally, and the graphs it yields form an exact transversal of
+the isomorphism classes of well-formed graphs on `n` vertices with `P`.  No hypothesis besides `Hereditary P` is left. -/
+theorem search_exact_with_IR_oracle_total (n : Nat) {P : G → Bool} (hP : Hereditary P) {fuel lim : Nat}
+    (hf : fuelBound n ≤ fuel) (hl : fuelBound n ≤ lim) :
+    ∃ outs t, exhaust irOracle (pruneOf P) noPrune fuel lim (init n 0 1) = .ok (outs, t) ∧
+      Transversal P n (outs.map DG.toG) :=
+  search_exact_total (irOracle_spec n) hP hf hl
+
+example : ∃ outs t, exhaust irOracle (pruneOf isForest) noPrune (fuelBound 9) (fuelBound 9) (init 9 0 1) = .ok (outs, t) ∧
+    Transversal isForest 9 (outs.map DG.toG) :=
+  search_exact_with_IR_oracle_total 9 hereditary_isForest (Nat.le_refl _) (Nat.le_refl _)
+
+/-- `shards_partition` without the hypotheses that the `m + 1` runs return -/
+theorem shards_partition_total {O : Oracle} {n : Nat} (hO : OracleSpec O n) (pre pr : DG → Bool) (m : Nat) (hm : 0 < m)
+    {fuel lim : Nat} (hf : fuelBound n ≤ fuel) (hl : fuelBound n ≤ lim) :
+    ∃ (out1 : List DG) (t1 : State) (outs : Nat → List DG) (ts : Nat → State),
+      exhaust O pre pr fuel lim (init n 0 1) = .ok (out1, t1) ∧
+      (∀ a, a < m → exhaust O pre pr fuel lim (init n a m) = .ok (outs a, ts a)) ∧
+      ((List.range m).flatMap outs).Perm out1 := by
+  obtain ⟨out1, t1, h1⟩ := run_terminates hO pre pr 0 1 (by decide) hf hl
+  have hall : ∀ a, ∃ o t, exhaust O pre pr fuel lim (init n a m) = .ok (o, t) :=
+    fun a => run_terminates hO pre pr a m hm hf hl
+  refine ⟨out1, t1, fun a => (hall a).choose, fun a => (hall a).choose_spec.choose, h1,
+    fun a _ => (hall a).choose_spec.choose_spec, ?_⟩
+  exact shards_partition O pre pr n m hm fuel lim h1 (fun a _ => (hall a).choose_spec.choose_spec)
+
+example : ∃ (out1 : List DG) (t1 : State) (outs : Nat → List DG) (ts : Nat → State),
+      exhaust irOracle noPrune noPrune (fuelBound 7) (fuelBound 7) (init 7 0 1) = .ok (out1, t1) ∧
+      (∀ a, a < 4 → exhaust irOracle noPrune noPrune (fuelBound 7) (fuelBound 7) (init 7 a 4) = .ok (outs a, ts a)) ∧
+      ((List.range 4).flatMap outs).Perm out1 :=
+  shards_partition_total (irOracle_spec 7) _ _ 4 (by decide) (Nat.le_refl _) (Nat.le_refl _)
+
+/-- `preprune_prune_agree` without the hypotheses that the two runs return -/
+theorem preprune_prune_agree_total {O : Oracle} {n : Nat} (hO : OracleSpec O n) (f : DG → Bool) (a m : Nat) (hm : 0 < m)
+    {fuel lim : Nat} (hf : fuelBound n ≤ fuel) (hl : fuelBound n ≤ lim) :
+    ∃ o t1 t2, exhaust O f noPrune fuel lim (init n a m) = .ok (o, t1) ∧
+      exhaust O noPrune f fuel lim (init n a m) = .ok (o, t2) := by
+  obtain ⟨o1, t1, h1⟩ := run_terminates hO f noPrune a m hm hf hl
+  obtain ⟨o2, t2, h2⟩ := run_terminates hO noPrune f a m hm hf hl
+  have := preprune_prune_agree O f n a m fuel lim h1 h2
+  subst this
+  exact ⟨o1, t1, t2, h1, h2⟩
+
+example : ∃ o t1 t2, exhaust irOracle (fun g => g.ne > 4) noPrune (fuelBound 5) (fuelBound 5) (init 5 0 1) = .ok (o, t1) ∧
+      exhaust irOracle noPrune (fun g => g.ne > 4) (fuelBound 5) (fuelBound 5) (init 5 0 1) = .ok (o, t2) :=
+  preprune_prune_agree_total (irOracle_spec 5) _ 0 1 (by decide) (Nat.le_refl _) (Nat.le_refl _)
 
 end Search
